@@ -695,9 +695,31 @@ func main() {
 	if thorough {
 		nseq, nforced, nconc = 6000, 2500, 600
 	}
+	// fleets in which one model is listed by many endpoints at once and then dropped endpoint by endpoint,
+	// in every order of "first to drop"
+	for n := 5; n <= 7; n++ {
+		for first := 0; first < n; first++ {
+			var ops []op
+			for e := 0; e < n; e++ {
+				ops = append(ops, op{Op: "reg", E: e, Models: []*mdl{M("x"), M(fmt.Sprintf("own%d", e))}})
+			}
+			ops = append(ops, op{Op: "reg", E: first, Models: []*mdl{M("y")}})
+			ops = append(ops, op{Op: "remove", E: (first + 1) % n})
+			for k := 2; k < n; k++ {
+				ops = append(ops, op{Op: "reg", E: (first + k) % n, Models: []*mdl{M(fmt.Sprintf("own%d", k))}})
+			}
+			caseHist(c, "seq", n, ops)
+			c.Count("hist.fleet")
+		}
+	}
 	for i := 0; i < nseq; i++ {
 		n := 1 + r.Intn(3)
-		caseHist(c, "seq", n, genHist(r, false, true, n, 3+r.Intn(10)))
+		length := 3 + r.Intn(10)
+		if i%5 == 4 { // larger fleets: one model listed by many endpoints at once, then dropped one by one
+			n = 4 + r.Intn(4)
+			length = 10 + r.Intn(16)
+		}
+		caseHist(c, "seq", n, genHist(r, false, true, n, length))
 		c.Count("hist.seq")
 	}
 	for i := 0; i < nforced; i++ {
